@@ -23,6 +23,7 @@ import Blue.Proofs.SbbfSst
 import Blue.Proofs.SstSetsum
 import Blue.Proofs.SstMetaHeadline
 import Blue.Proofs.SstMultiRoll
+import Blue.Proofs.SstApprox
 /-! # Property C10 — an SST or block returns exactly what was put in, under every cursor movement
 
 Property theorems only (helper lemmas live in `Blue/Proofs/{Wire,EntryCodec,Block,BlockRestarts,
@@ -49,6 +50,13 @@ hypothesis `hsize` is derived from the builders' checks (`file_size_bound_from_t
 (`multi_builder_roll_rule`, `multi_builder_hints_and_cuts`; that `MB.roll` / `MB.splitHint` are the
 decisions of the real code stays correspondence, `split_hint` is not yet exercised by the harness;
 no file is empty for `u64` timestamps: `multi_builder_no_empty_file`).
+
+Block `SstApprox` (end of file): `SstBuilder::approximate_size` is related to the bytes written
+(`approx_size_tracks_bytes`) and the table bound is derived from `put`'s own
+`check_table_size(self.approximate_size())`: a sealed file is shorter than `TABLE_FULL_SIZE` + 148186
++ the filter block (`sealed_file_size_le_table_full_plus`; below 1543652058 < 2^31 for all options).
+The filter is not part of `approximate_size`; it is bounded from the entry count
+(`filter_block_from_count`, at most 2^29 bytes).  Constants are coarse (varints taken as 10 bytes).
 
 What is a theorem here and what is held by correspondence only is said at each statement; the
 piece named `_partial` is weaker than the property's sentence and says what is missing — and
@@ -1259,7 +1267,7 @@ theorem metadata_bytes_of_sealed_file (hash : List Nat → Vector Nat 8)
     (`BlockBuilder::put` refuses at `TABLE_FULL_SIZE`, entries are within the key / value limits),
     the index frame, the filter frame (a `u32` bit count), the final block.  Coarse on purpose: the
     real table is also held near 960 MiB by `SstBuilder::put`'s own `check_table_size`, which this
-    bound does not use. -/
+    bound does not use (the bound that does: `sealed_file_size_le_table_full_plus`, block `SstApprox`). -/
 theorem file_size_bound_from_table_full (o : SstOpts) (atts : List KV) (filter setsum : List Nat) (f : SstFile)
     (hseal : (SB.putAll o SB.init atts).2.seal o filter setsum = .ok f)
     (hts : ∀ e ∈ atts, e.ts ≤ U64MAX)
@@ -1392,6 +1400,85 @@ example : ∃ f, (SB.putAll rollOpts SB.init []).2.seal rollOpts (List.replicate
 end SstMeta
 -- END SstMeta
 
+-- BEGIN SstApprox
+/-! ## `approximate_size` against the bytes written: the table bound of about 960 MiB
+
+`Blue/Proofs/SstApprox.lean`.  In the Rust (lib.rs:1976-1992, block.rs:293) `approximate_size` is
+`bytes_written + open block's (buffer + 16 + 4·restarts) + 1 + index block's (same) + FINAL_BLOCK_MAX_SZ`;
+`put` / `del` test `check_table_size(self.approximate_size())` — the size *before* the entry, no
+entry size is added — and the filter is **not** counted (deferred inserts, sized at `seal`). -/
+section SstApprox
+
+/-- NEW: **`approximate_size` tracks the bytes.**  At every state the builder reaches (any attempts
+    with `u64` timestamps, any options): `bytes_written` is exactly the data block frames written;
+    the open block's frame will be within `[estimate − 16, estimate + 38]`; so is the index block's;
+    `seal`'s closing flush leaves no open block and raises the estimate by at most 49342 (38 + one
+    index entry ≤ 49300 + 4), after which data frames + index frame + 110 ≤ estimate; and the
+    estimate is below `TABLE_FULL_SIZE + APPROX_STEP` (98666: what one accepted entry can add).
+    Constants are the coarse ones of `SstSize.lean` (every varint taken as 10 bytes). -/
+theorem approx_size_tracks_bytes (o : SstOpts) (atts : List KV) (hts : ∀ e ∈ atts, e.ts ≤ U64MAX) :
+    let s := (SB.putAll o SB.init atts).2
+    s.bytesWritten = (s.blocks.flatMap (frame SE_PLAIN)).length
+    ∧ (∀ c, s.cur = some c → (frame SE_PLAIN c.b.seal).length ≤ c.b.approxSize + 38
+        ∧ c.b.approxSize ≤ (frame SE_PLAIN c.b.seal).length + 16)
+    ∧ ((frame SE_PLAIN s.index.b.seal).length ≤ s.index.b.approxSize + 38
+        ∧ s.index.b.approxSize ≤ (frame SE_PLAIN s.index.b.seal).length + 16)
+    ∧ (∀ s1, sealedState o s = .ok s1 → s1.cur = none ∧ s1.approxSize ≤ s.approxSize + 49342
+        ∧ (s1.blocks.flatMap (frame SE_PLAIN)).length + (frame SE_PLAIN s1.index.b.seal).length + 110
+            ≤ s1.approxSize)
+    ∧ s.approxSize < TABLE_FULL_SIZE + APPROX_STEP :=
+  Blue.Sst.approx_size_tracks_bytes o atts hts
+
+/-- NEW: **the table bound**: every sealed file is shorter than `TABLE_FULL_SIZE + SLACK o count`,
+    `SLACK = 148186 + filterLen count bloomBits` — the filter block is the only part that is not in
+    `approximate_size`; for all options and counts shorter than `TABLE_FULL_SIZE + SLACK_MAX`
+    = 1006632960 + 148186 + 2^29 = 1543652058 < 2^31.  From `SstBuilder::put`'s own
+    `check_table_size(self.approximate_size())`; sharpens `file_size_bound_from_table_full` (2^62),
+    which stays, as does `sst_file_roundtrip_no_size_hyp`. -/
+theorem sealed_file_size_le_table_full_plus (o : SstOpts) (atts : List KV) (filter setsum : List Nat) (f : SstFile)
+    (hseal : (SB.putAll o SB.init atts).2.seal o filter setsum = .ok f)
+    (hts : ∀ e ∈ atts, e.ts ≤ U64MAX)
+    (hsetsum : setsum.length = 32)
+    (hfilter : filter.length = filterLen (SB.putAll o SB.init atts).2.count o.bloomBits) :
+    f.bytes.length < TABLE_FULL_SIZE + SLACK o (SB.putAll o SB.init atts).2.count
+    ∧ f.bytes.length < TABLE_FULL_SIZE + SLACK_MAX
+    ∧ TABLE_FULL_SIZE + SLACK_MAX < 2147483648 :=
+  Blue.Sst.sealed_file_size_le_table_full_plus o atts filter setsum f hseal hts hsetsum hfilter
+
+/-- NEW: **the filter block from the entry count** (the dominant slack for tiny entries):
+    `bloomBits` bits per accepted entry rounded up to bytes, plus at most one 32-byte block; never
+    above 2^29 bytes (`u32` bit count, saturating) — reached exactly when `count·bits ≥ 4294967033` -/
+theorem filter_block_from_count (count bits : Nat) :
+    filterLen count bits ≤ (count * bits + 7) / 8 + 32 ∧ filterLen count bits ≤ 536870912 :=
+  filterLen_le_count count bits
+
+/-! non-vacuity: three entries, target block size 20 (every entry flushes the block before it) -/
+def apxOpts : SstOpts := ⟨⟨16, 16⟩, 20, 17, 210⟩
+example : ∀ e ∈ rollAtts, e.ts ≤ U64MAX := by decide +kernel
+/-- before `seal`: two blocks written (50 bytes, exactly the frames), one open; estimate 291 -/
+example : ((SB.putAll apxOpts SB.init rollAtts).2.approxSize, (SB.putAll apxOpts SB.init rollAtts).2.bytesWritten,
+    ((SB.putAll apxOpts SB.init rollAtts).2.blocks.flatMap (frame SE_PLAIN)).length,
+    (SB.putAll apxOpts SB.init rollAtts).2.count) = (291, 50, 50, 3) := by decide +kernel
+/-- the sealed file: 265 bytes (3 data frames, index frame 81, filter frame 34, final block 78)
+    against the estimate 291 — and against `TABLE_FULL_SIZE + SLACK` -/
+example : (match (SB.putAll apxOpts SB.init rollAtts).2.seal apxOpts (List.replicate 32 0) (List.replicate 32 0) with
+    | .ok f => decide (f.bytes.length = 265 ∧ f.blocks.length = 3 ∧ (frame SE_PLAIN f.index).length = 81)
+    | .error _ => false) = true := by decide +kernel
+example (f : SstFile)
+    (h : (SB.putAll apxOpts SB.init rollAtts).2.seal apxOpts (List.replicate 32 0) (List.replicate 32 0) = .ok f) :
+    f.bytes.length < TABLE_FULL_SIZE + SLACK apxOpts 3 := by
+  have hc : (SB.putAll apxOpts SB.init rollAtts).2.count = 3 := by decide +kernel
+  have := (sealed_file_size_le_table_full_plus apxOpts rollAtts _ _ f h (by decide +kernel) (by decide)
+    (by rw [hc]; decide)).1
+  rwa [hc] at this
+example : SLACK apxOpts 3 = 148218 ∧ TABLE_FULL_SIZE + SLACK_MAX = 1543652058 := by decide
+/-- the filter's worst case is attained: 43 bits per entry and 99882955 entries (an entry takes
+    at least a byte of the table, so the count is not bounded away from this by `TABLE_FULL_SIZE`
+    in the model) give the full 2^29 bytes; one entry fewer, one 32-byte block less -/
+example : filterLen 99882955 43 = 536870912 ∧ filterLen 99882954 43 = 536870880 := by decide
+end SstApprox
+-- END SstApprox
+
 end Blue.Props.C10
 
 #print axioms Blue.Props.C10.limits_from_source
@@ -1469,3 +1556,6 @@ end Blue.Props.C10
 #print axioms Blue.Props.C10.multi_builder_hints_and_cuts
 #print axioms Blue.Props.C10.multi_builder_no_empty_file
 #print axioms Blue.Props.C10.metadata_schema_from_source
+#print axioms Blue.Props.C10.approx_size_tracks_bytes
+#print axioms Blue.Props.C10.sealed_file_size_le_table_full_plus
+#print axioms Blue.Props.C10.filter_block_from_count
